@@ -72,6 +72,27 @@ def zone_task(zones, quick):
                         if problems:
                             st.fail('datetime-changed-through-roundtrip', dict(sig, what='+'.join(problems)), case,
                                     {'text': text, 'expected': dt.isoformat() + ' ' + olson, 'observed': back.isoformat() + ' ' + str(getattr(back.tzinfo, 'zone', None))})
+        # values whose offset is STALE for their zone at that instant (plain datetime arithmetic across a transition, or a skipped
+        # local time localised with the default is_dst): the instant and the zone name survive; the offset may be normalised
+        for t in transitions(olson, quick):
+            before = (t - datetime.timedelta(hours=1)).replace(tzinfo=UTC).astimezone(tz)
+            stale = before + datetime.timedelta(minutes=90)
+            if stale.utcoffset() == tz.normalize(stale).utcoffset():
+                continue
+            for fmt in ('zinc', 'json'):
+                st.count('executions')
+                case = {'kind': 'stale', 'zone': name, 'olson': olson, 'utc_before': (t - datetime.timedelta(hours=1)).isoformat(), 'fmt': fmt}
+                try:
+                    text, back = roundtrip(hs, stale, fmt)
+                except Exception as e:  # noqa
+                    st.fail('mapped-zone-datetime-roundtrip-raised', {'fmt': fmt, 'exc': type(e).__name__, 'zone': name, 'offset': 'stale'}, case, {'exc': repr(e)[:300]})
+                    continue
+                ok = isinstance(back, datetime.datetime) and back.tzinfo is not None and (back - EPOCH) // US == (stale - EPOCH) // US \
+                    and getattr(back.tzinfo, 'zone', None) == olson
+                st.case((name, 'stale', t.isoformat(), fmt), outcome=('stale', ok))
+                if not ok:
+                    st.fail('datetime-changed-through-roundtrip', {'fmt': fmt, 'what': 'zone-or-instant', 'offset': 'stale-for-the-zone'}, case,
+                            {'text': text, 'value': stale.isoformat() + ' ' + olson, 'observed': repr(back)})
         st.samples.append({'zone': name, 'olson': olson, 'transitions': len(transitions(olson, quick))})
     st.samples = st.samples[:3]
     return st
@@ -399,6 +420,16 @@ def replay(case, st):
         loc = datetime.datetime.fromisoformat(case['local'])
         dt = loc.replace(tzinfo=datetime.timezone(datetime.timedelta(minutes=case['offset_min'])))
         judge_foreign(hs, dt, 'fixed%+d' % case['offset_min'], st, dict(zone_list), case)
+    elif k == 'stale':
+        tz = pytz.timezone(case['olson'])
+        before = datetime.datetime.fromisoformat(case['utc_before']).replace(tzinfo=UTC).astimezone(tz)
+        stale = before + datetime.timedelta(minutes=90)
+        try:
+            text, back = roundtrip(hs, stale, case['fmt'])
+            if (back - EPOCH) // US != (stale - EPOCH) // US or getattr(back.tzinfo, 'zone', None) != case['olson']:
+                st.fail('datetime-changed-through-roundtrip', {'fmt': case['fmt'], 'offset': 'stale-for-the-zone'}, case, {'text': text, 'back': repr(back)})
+        except Exception as e:  # noqa
+            st.fail('mapped-zone-datetime-roundtrip-raised', {'fmt': case['fmt'], 'exc': type(e).__name__}, case, {'exc': repr(e)})
     elif k == 'interrupted-build':
         st.merge(interrupted_build_task([case['k']], dict(zone_list)))
     elif k == 'map':
